@@ -64,13 +64,14 @@ class SM_communicationreqfail(_SMBase):
 
 @contract("secsgem.gem.communication_state_machine:CommunicationStateMachine.communicationfail", "C07", name="SM_communicationfail")
 class SM_communicationfail(_SMBase):
-    """ASSUMED, validated (FD): COMMUNICATING -> NOT_COMMUNICATING."""
+    """ASSUMED, validated (FD): COMMUNICATING / WAIT_CRA / WAIT_DELAY -> NOT_COMMUNICATING (the link is gone: D43)."""
 
-    sm_sources, sm_target, sm_name = (CM.COMMUNICATING,), CM.NOT_COMMUNICATING, "communicationfail"
+    sm_sources, sm_target, sm_name = (CM.COMMUNICATING, CM.WAIT_CRA, CM.WAIT_DELAY), CM.NOT_COMMUNICATING, "communicationfail"
     modifies = {"self._current_state": Obj(State, _state=Const(CM.NOT_COMMUNICATING)), "self.g_transitions": Int}
 
     def raises(self):
-        return {WrongSourceStateError: self._current_state._state is not CM.COMMUNICATING}
+        st = self._current_state._state
+        return {WrongSourceStateError: st is not CM.COMMUNICATING and st is not CM.WAIT_CRA and st is not CM.WAIT_DELAY}
 
 
 @contract("secsgem.gem.communication_state_machine:CommunicationStateMachine.select", "C07", name="SM_select")
@@ -278,7 +279,8 @@ class OnMessageReceived:
 
 @contract("secsgem.gem.handler:GemHandler.on_connection_closed", "C07")
 class OnConnectionClosed:
-    """Loss of the link leaves COMMUNICATING (-> NOT_COMMUNICATING) and changes no other state."""
+    """Loss of the link leaves COMMUNICATING and ends an attempt in progress (WAIT_CRA, WAIT_DELAY): -> NOT_COMMUNICATING;
+    DISABLED and NOT_COMMUNICATING are unchanged."""
 
     cases = [(st.name, {"state": st}) for st in STATES]
     uses = [SM_communicationfail]
@@ -292,7 +294,7 @@ class OnConnectionClosed:
 
     def ensures(self, case):
         cur = self._communication_state._current_state._state
-        return cur is (CM.NOT_COMMUNICATING if case["state"] is CM.COMMUNICATING else case["state"])
+        return cur is (CM.NOT_COMMUNICATING if case["state"] in (CM.COMMUNICATING, CM.WAIT_CRA, CM.WAIT_DELAY) else case["state"])
 
 
 @contract("secsgem.gem.handler:GemHandler._on_communicating", "C07")
